@@ -1,13 +1,20 @@
 #!/bin/bash
 # Multi-seed soak: looks for rare alarms on the unchanged tree.
-# usage: tools/soak.sh <seconds per run> <seeds...>; uses the binaries of /verif/build
+# usage: tools/soak.sh <seconds per run> <seeds...>
+# Takes a private copy of the engine binaries of /verif/build first, so that
+# later rebuilds do not swap binaries under a running soak.
 root=${VERIF_SOAK_ROOT:-$PWD}
 secs=$1; shift
+bins=$root/soakbin
+rm -rf "$bins"; mkdir -p "$bins"
+for v in small asan tshim plain; do mkdir -p "$bins/$v"; cp -a /verif/build/$v/bin "$bins/$v/bin"; done
 for s in "$@"; do
-  for spec in C03:small/bin/eion C10:small/bin/erhd C04:small/bin/erhd C01:small/bin/eion C07:small/bin/erhd C09:small/bin/erhd C13:small/bin/eion; do
-    IFS=: read -r p bin <<<"$spec"
-    out=$(VERIF_ROOT=$root VERIF_SEED=$s VERIF_PROPERTY=$p VERIF_SECONDS=$secs VERIF_RUNS=100000000 VERIF_EVIDENCE_PART=soak /verif/build/$bin quick 2>&1)
-    echo "seed $s $p: $(echo "$out" | grep "^check $p:" | tail -1)"
-    echo "$out" | grep -E "^candidate|VIOLATION|NONDET" | cut -c1-400
+  for spec in C03:small/bin/eion: C10:small/bin/erhd: C04:small/bin/erhd: C01:small/bin/eion: C01:small/bin/erhd: \
+              C07:small/bin/erhd: C09:small/bin/erhd: C13:small/bin/eion: C13:plain/bin/erng: C08:tshim/bin/econt: \
+              C19:plain/bin/etl: C12:asan/bin/eion: C12:asan/bin/erhd: C12:small/bin/eion:perturb; do
+    IFS=: read -r p bin vmode <<<"$spec"
+    out=$(VERIF_ROOT=$root VERIF_SEED=$s VERIF_PROPERTY=$p VERIF_MODE=$vmode VERIF_SECONDS=$secs VERIF_RUNS=100000000 VERIF_EVIDENCE_PART=soak "$bins/$bin" quick 2>&1)
+    echo "seed $s $p $bin $vmode: $(echo "$out" | grep "^check $p:" | tail -1)"
+    echo "$out" | grep -E "^candidate|VIOLATION|NONDET|^KNOWN" | cut -c1-400
   done
 done
